@@ -237,22 +237,31 @@ impl<T: SliceWrapperMut<u32> + SliceWrapper<u32> + BasicHashComputer> BasicHashe
         let lookahead = 8;
         if ix_end >= ix_start + lookahead * 2 {
             let chunk_count = (ix_end - ix_start) / 4;
+            let sweep = self.buckets_.BUCKET_SWEEP() as usize;
             for chunk_id in 0..chunk_count {
-                let i = (ix_start + chunk_id * 4) & mask;
+                let ix = ix_start + chunk_id * 4;
+                let i = ix & mask;
+                if mask - i < 3 {
+                    // the four positions straddle the end of the ring buffer
+                    for k in 0..4 {
+                        self.Store(data, mask, ix + k);
+                    }
+                    continue;
+                }
                 let word11 = data.split_at(i).1.split_at(11).0;
                 let mixed0 = self.HashBytes(word11);
                 let mixed1 = self.HashBytes(word11.split_at(1).1);
                 let mixed2 = self.HashBytes(word11.split_at(2).1);
                 let mixed3 = self.HashBytes(word11.split_at(3).1);
-                let off: u32 = (i >> 3).wrapping_rem(self.buckets_.BUCKET_SWEEP() as usize) as u32;
-                let offset0: usize = mixed0 + off as usize;
-                let offset1: usize = mixed1 + off as usize;
-                let offset2: usize = mixed2 + off as usize;
-                let offset3: usize = mixed3 + off as usize;
-                self.buckets_.slice_mut()[offset0] = i as u32;
-                self.buckets_.slice_mut()[offset1] = i as u32 + 1;
-                self.buckets_.slice_mut()[offset2] = i as u32 + 2;
-                self.buckets_.slice_mut()[offset3] = i as u32 + 3;
+                // as in Store: the sweep slot and the stored value are those of the position itself
+                let offset0: usize = mixed0 + (ix >> 3).wrapping_rem(sweep);
+                let offset1: usize = mixed1 + ((ix + 1) >> 3).wrapping_rem(sweep);
+                let offset2: usize = mixed2 + ((ix + 2) >> 3).wrapping_rem(sweep);
+                let offset3: usize = mixed3 + ((ix + 3) >> 3).wrapping_rem(sweep);
+                self.buckets_.slice_mut()[offset0] = ix as u32;
+                self.buckets_.slice_mut()[offset1] = (ix + 1) as u32;
+                self.buckets_.slice_mut()[offset2] = (ix + 2) as u32;
+                self.buckets_.slice_mut()[offset3] = (ix + 3) as u32;
             }
             return ix_start + chunk_count * 4;
         }
@@ -1140,7 +1149,21 @@ impl<
             let shift = self.specialization.hash_shift();
             let chunk_count = (ix_end - ix_start) / 4;
             for chunk_id in 0..chunk_count {
-                let i = (ix_start + chunk_id * 4) & mask;
+                let ix = ix_start + chunk_id * 4;
+                let i = ix & mask;
+                if mask - i < 3 {
+                    // the four positions straddle the end of the ring buffer: as in Store
+                    for k in 0..4 {
+                        let p = ix + k;
+                        let key = (self.specialization.load_and_mix_word(&data[(p & mask)..])
+                            >> shift) as u32 as usize;
+                        let minor_ix =
+                            (u32::from(num[key]) & self.specialization.block_mask()) as usize;
+                        buckets[(key << self.specialization.block_bits()) + minor_ix] = p as u32;
+                        num[key] = num[key].wrapping_add(1);
+                    }
+                    continue;
+                }
                 let ffffffff = 0xffff_ffff;
                 let word = u64::from(data[i])
                     | (u64::from(data[i + 1]) << 8)
@@ -1181,10 +1204,10 @@ impl<
                     (mixed2 << self.specialization.block_bits()) + num_ref2 as usize;
                 let offset3: usize =
                     (mixed3 << self.specialization.block_bits()) + num_ref3 as usize;
-                buckets[offset0] = (i) as u32;
-                buckets[offset1] = (i + 1) as u32;
-                buckets[offset2] = (i + 2) as u32;
-                buckets[offset3] = (i + 3) as u32;
+                buckets[offset0] = ix as u32;
+                buckets[offset1] = (ix + 1) as u32;
+                buckets[offset2] = (ix + 2) as u32;
+                buckets[offset3] = (ix + 3) as u32;
             }
             return ix_start + chunk_count * 4;
         }
